@@ -21,7 +21,7 @@ META = {
                    "rounds once with eps; (4) GAUGE - both start from a right-to-left orthogonalisation of the operand with a fresh "
                    "rank list and never write the operand.",
     "assumptions": ["the eps bound itself and optimality of ranks are not decided", "to_qtt/qtt_to_tens are covered only by the discipline rules"],
-    "floors": {"E5-CHAIN": 4, "DRAIN": 6, "E4-ALLOWANCE": 2, "E4-EPSFLOW": 2, "GAUGE": 2},
+    "floors": {"EXACT-SPLIT": 2, "E5-CHAIN": 4, "DRAIN": 6, "E4-ALLOWANCE": 2, "E4-EPSFLOW": 2, "GAUGE": 2},
 }
 ANCHORS = ["_extras.reshape", "_extras.permute", "_tt_base.TT.to_qtt", "_tt_base.TT.qtt_to_tens"]
 
@@ -134,6 +134,60 @@ def rule_drain(model: Model):
     return obs
 
 
+def rule_exact_split(model: Model):
+    """EXACT-SPLIT (added after seed S3-C10-2).  reshape splits a (merged) core mode of size P into the requested size Q and the rest P // Q and
+    reshapes the core accordingly; that is only a reshape of the same data when Q divides P.  Every floor quotient that reaches a reshape
+    target must therefore be computed under a dominating test `P % Q == 0` (possibly one conjunct of it) over the same two quantities
+    (locals are read through their definitions).  No `%` test at all in the function: the form of the guard is not recognised (exit 2)."""
+    from ..model import call_args
+    f = model.func("_extras.reshape")
+    nz = al.Normaliser(model, f, ("eps",))
+    obs = []
+    parents = {}
+    for n in ast.walk(f.node):
+        for fld in ("body", "orelse"):
+            for c in getattr(n, fld, []) if isinstance(getattr(n, fld, None), list) else []:
+                parents[id(c)] = (n, fld)
+    # names used inside reshape targets
+    in_targets = set()
+    for n in ast.walk(f.node):
+        if isinstance(n, ast.Call):
+            ra = call_args(n, "reshape")
+            if ra and len(ra) >= 2:
+                for x in ast.walk(ra[1]):
+                    if isinstance(x, ast.Name):
+                        in_targets.add(x.id)
+    mods = []
+    for n in ast.walk(f.node):
+        if isinstance(n, ast.If):
+            conj = n.test.values if isinstance(n.test, ast.BoolOp) and isinstance(n.test.op, ast.And) else [n.test]
+            for t in conj:
+                if isinstance(t, ast.Compare) and len(t.ops) == 1 and isinstance(t.ops[0], ast.Eq) and isinstance(t.left, ast.BinOp) and isinstance(t.left.op, ast.Mod) \
+                        and isinstance(t.comparators[0], ast.Constant) and t.comparators[0].value == 0:
+                    mods.append((n, nz.canon(t.left.left).replace(" ", ""), nz.canon(t.left.right).replace(" ", "")))
+    quots = [n for n in ast.walk(f.node) if isinstance(n, ast.Assign) and len(n.targets) == 1 and isinstance(n.targets[0], ast.Name)
+             and isinstance(n.value, ast.BinOp) and isinstance(n.value.op, ast.FloorDiv) and n.targets[0].id in in_targets]
+    if not quots:
+        return [Ob("EXACT-SPLIT", "_extras.reshape:EXACT-SPLIT", ERROR, model.where(f), "P // Q in a reshape target", "no floor quotient reaches a reshape target: the split of a mode was not recognised")]
+    if not mods:
+        return [Ob("EXACT-SPLIT", "_extras.reshape:EXACT-SPLIT", ERROR, model.where(f), "P % Q == 0", "no divisibility test of the form `P % Q == 0` was found in reshape")]
+    for i, q in enumerate(quots):
+        P_, Q_ = nz.canon(q.value.left).replace(" ", ""), nz.canon(q.value.right).replace(" ", "")
+        ok = False
+        cur = q
+        while id(cur) in parents:
+            par, fld = parents[id(cur)]
+            if isinstance(par, ast.If) and fld == "body" and any(m[0] is par and m[1] == P_ and m[2] == Q_ for m in mods):
+                ok = True
+                break
+            cur = par
+        obs.append(Ob("EXACT-SPLIT", f"_extras.reshape:EXACT-SPLIT:{q.targets[0].id}:{i}", OK if ok else VIOLATED, model.where(f, q), norm(q),
+                      f"computed under `{P_} % {Q_} == 0`" if ok else
+                      f"`{norm(q)}` reaches a reshape target without a dominating test `{P_} % {Q_} == 0`: when the requested mode does not divide the "
+                      "(merged) core mode the reshape regroups other data - the result has wrong modes / values or torch raises"))
+    return obs
+
+
 def rule_gauge(model: Model):
     obs = []
     for fn in ("_extras.reshape", "_extras.permute"):
@@ -189,6 +243,7 @@ def check(model: Model, tier: str):
     obs.append(Ob("E4-EPSFLOW", "_extras.reshape:E4-EPSFLOW:final-round", OK if okr else VIOLATED, model.where(f), "return TT(cores_new).round(eps)",
                   "one final rounding with the caller's eps" if okr else "the final rounding does not use the caller's eps"))
     obs += rule_gauge(model)
+    obs += rule_exact_split(model)
     from ..e5 import obligations as e5ob
     obs += e5ob.for_property(model, "C10", tier)      # the contract of one core exchange of permute, on every path of the branch
     from ..adjoint import rule_adjoint, self_fixture
